@@ -437,7 +437,9 @@ func init() {
 			// the function wrapped it in (an empty string out of raw(), trim(), then(); 0 out of len(), binary(), floor() ...)
 			{
 				lit := func(v model.Value) model.Expr { return literalOf(v) }
-				call := func(x model.Expr, name string, args ...model.Expr) model.Expr { return model.Call{X: x, Name: name, Args: args} }
+				call := func(x model.Expr, name string, args ...model.Expr) model.Expr {
+					return model.Call{X: x, Name: name, Args: args}
+				}
 				type recvCall struct {
 					recv model.Value
 					name string
